@@ -1,5 +1,6 @@
 #![allow(non_snake_case, unpredictable_function_pointer_comparisons)]
 pub mod catalogue;
+pub mod compare;
 pub mod entry;
 pub mod evidence;
 pub mod genp;
@@ -10,6 +11,7 @@ pub mod ov;
 pub mod probe;
 pub mod pv;
 pub mod rec;
+pub mod sites;
 pub mod runner;
 pub mod trace;
 pub mod ty;
